@@ -64,6 +64,21 @@ func (tr *Tr) evalCall(env *CEnv, x *CCall) (Value, types.Type) {
 				return LocV{L: l, Typ: et}, et
 			}
 			return tr.loadAt(env.st, l, et), et
+		case "oldelem":
+			// oldelem(s, p): the element that the slice s, taken at function entry, held at absolute position p in the entry
+			// heap; p itself is evaluated in the current state (lets a postcondition relate new positions to old contents
+			// with the new-state element as the only trigger)
+			oenv := *env
+			oenv.st = env.old
+			v, t := tr.evalC(&oenv, x.Args[0])
+			sl := tr.asSl(tr.rval(&oenv, v, t))
+			pos := tr.evalInt(env, x.Args[1])
+			et := t.Underlying().(*types.Slice).Elem()
+			l := Loc{Kind: LElem, Prefix: elemPrefix(et), Ref: sl.Arr, Idx: pos}
+			if kindOf(et) == kStruct {
+				panic(subsetErr("oldelem() on a slice of structs"))
+			}
+			return tr.loadAt(oenv.st, l, et), et
 		case "sumarr":
 			av, _ := tr.evalC(env, x.Args[0])
 			a, ok := av.(Ar)
@@ -196,6 +211,35 @@ func (tr *Tr) evalCall(env *CEnv, x *CCall) (Value, types.Type) {
 				if !matched {
 					panic(subsetErr("allocframe: unknown heap name " + pre))
 				}
+			}
+			return boolV(sAnd(cs...)), bt
+		case "frameexcept":
+			// frameexcept("heap-prefix", x, y, ...): every object that existed at function entry, other than the listed ones
+			// (slices: their backing arrays), has the same contents in the named heap variables now as it had at entry
+			reg := tr.g.heapRegistry()
+			var cs []string
+			tr.noteFrameTop("|top@0|")
+			pre := x.Args[0].(*CStr).Val
+			conds := []string{"(< 0 r)", "(< r |top@0|)"}
+			for _, a := range x.Args[1:] {
+				v, t := tr.evalC(env, a)
+				conds = append(conds, sNot(sEq("r", tr.refOf(env, v, t))))
+			}
+			matched := false
+			for _, hn := range sortedKeys(reg) {
+				if hn == pre || strings.HasPrefix(hn, pre+"#") || strings.HasPrefix(hn, pre+".") {
+					matched = true
+					now := tr.heapVar(env.st, hn, reg[hn])
+					old := tr.heapVar(tr.oldStateOr(env), hn, reg[hn])
+					if now == old {
+						continue
+					}
+					tr.fresh++
+					cs = append(cs, fmt.Sprintf("(forall ((r Int)) (! (=> %s (= (select %s r) (select %s r))) :pattern ((select %s r)) :qid FX%d))", sAnd(conds...), now, old, now, tr.fresh))
+				}
+			}
+			if !matched {
+				panic(subsetErr("frameexcept: unknown heap name " + pre))
 			}
 			return boolV(sAnd(cs...)), bt
 		case "funcid":
@@ -453,7 +497,25 @@ func (tr *Tr) evalSpec(env *CEnv, sd *SpecDef, argEs []CExpr) (Value, types.Type
 			rs = "Bool"
 		}
 		name := smtName("U$" + sd.Name)
-		tr.sc.declare(name, strings.TrimSpace(sig)+") "+rs)
+		if !tr.sc.declared[name] {
+			tr.sc.declare(name, strings.TrimSpace(sig)+") "+rs)
+			// an abstract function that reads no heap denotes the same value throughout the call: a reference it returns is an
+			// object that already existed at entry (typing fact for pointer-valued abstract functions)
+			if len(sd.Reads) == 0 && rs == "Int" && isPointer(rt) {
+				var bs, as []string
+				for i, srt := range sigArgSorts(strings.TrimSpace(sig) + ") " + rs) {
+					v := fmt.Sprintf("u%d", i)
+					bs = append(bs, "("+v+" "+srt+")")
+					as = append(as, v)
+				}
+				app := "(" + name + " " + strings.Join(as, " ") + ")"
+				if len(as) == 0 {
+					tr.sc.fact(fmt.Sprintf("(and (<= 0 %s) (< %s |top@0|))", name, name))
+				} else {
+					tr.sc.fact(fmt.Sprintf("(forall (%s) (! (and (<= 0 %s) (< %s |top@0|)) :pattern (%s)))", strings.Join(bs, " "), app, app, app))
+				}
+			}
+		}
 		tr.emitAxioms()
 		term := "(" + name + " " + strings.Join(ts, " ") + ")"
 		if len(ts) == 0 {
@@ -818,6 +880,8 @@ func (tr *Tr) opaqueAtom(sd *SpecDef, v Value) Value {
 		fn = smtName(fmt.Sprintf("OP$%s!%d", sd.Name, tr.fresh))
 		tr.sc.declare(fn, "("+strings.Join(sorts, " ")+") "+rs)
 		tr.cntSyms[key] = fn
+		ft, fok := tr.footprintTemplate(shape, len(args))
+		tr.footTemplates[fn] = footTemplate{foot: ft, ok: fok}
 	}
 	atom := fn
 	if len(args) > 0 {
@@ -870,19 +934,36 @@ func (tr *Tr) relateOpaque(sd *SpecDef, fn string, args []string, atom string, i
 		atom = "(" + fn + " " + strings.Join(args, " ") + ")"
 	}
 	insts := tr.opaqueAtoms[fn]
+	known := false
 	for _, old := range insts {
 		if old.atom == atom {
+			// registered already: if by this function, the relations have been emitted; if by a state merge (under one
+			// incoming guard only), the unguarded lineage relations below are still due
+			if old.related {
+				return
+			}
+			known = true
+		}
+	}
+	register := func() {
+		if known {
+			for k := range tr.opaqueAtoms[fn] {
+				if tr.opaqueAtoms[fn][k].atom == atom {
+					tr.opaqueAtoms[fn][k].related = true
+				}
+			}
 			return
 		}
+		tr.opaqueAtoms[fn] = append(tr.opaqueAtoms[fn], opaqueInst{fn: fn, args: args, atom: atom, sd: sd, bool_: isBool, related: true})
 	}
 	sorts := sigArgSorts(tr.sc.sigs[fn])
 	if len(sorts) != len(args) {
-		tr.opaqueAtoms[fn] = append(insts, opaqueInst{fn: fn, args: args, atom: atom, sd: sd, bool_: isBool})
+		register()
 		return
 	}
 	isHeap := func(i int) bool { return strings.HasPrefix(sorts[i], "(Array") }
 	for _, old := range insts {
-		if len(old.args) != len(args) {
+		if len(old.args) != len(args) || old.atom == atom {
 			continue
 		}
 		related, differs := true, false
@@ -955,7 +1036,7 @@ func (tr *Tr) relateOpaque(sd *SpecDef, fn string, args []string, atom string, i
 		tr.stableUsed[sd.Name] = true
 		tr.assumptions["stability of opaque spec "+sd.Name+" under allocation (lemma stable."+sd.Name+", proved by the engine)"] = true
 	}
-	tr.opaqueAtoms[fn] = append(insts, opaqueInst{fn: fn, args: args, atom: atom, sd: sd, bool_: isBool})
+	register()
 }
 
 // sigArgSorts splits "(S1 S2 ...) R" into its argument sorts.
